@@ -423,7 +423,10 @@ def shared(ctx):
     from rules.props import c03
     core.import_rules(ctx, [c03.r5_globals], "X03")
     from rules.props import c01
-    core.import_rules(ctx, [c01.r10_no_wraparound], "X01")     # fee pool and tips stop at the top of their range, they do not wrap
+    core.import_rules(ctx, [c01.r10_no_wraparound], "X01")
+    # "accounted exactly": fee_pool and tips change only in the fee split, the proposer reward and the TIP-909 subsidy — no other function (next_unsealed, a restore
+    # path, a clean-up) writes them
+    core.import_rules(ctx, [c01.r5_issuance_confinement], "X01")     # fee pool and tips stop at the top of their range, they do not wrap
 
 
 RULES = [r1_fee_gate, r2_split, r3_reward, shared]
